@@ -4,7 +4,7 @@
 (* clause some event sequence makes it fire.  TLC explores the monitor's own state space (BFS, bounded length) and   *)
 (* prints each clause the first time it fires; the driver compares the set with the list of clauses in SessionMon.   *)
 EXTENDS SessionMon
-CONSTANT MaxLen
+CONSTANTS MaxLen, Small      \* Small: a reduced alphabet (well-behaved environment only) for clauses that need longer event sequences
 VARIABLES m, n
 Ops == {"send", "auth"}
 Evs ==
@@ -17,10 +17,17 @@ Evs ==
   \cup {[e |-> "deliver", c |-> 1, m |-> mm, k |-> kk, gen |-> g, live |-> TRUE, i |-> 1] : mm \in {"HSR", "ENC", "PKT"}, kk \in {0, 1}, g \in BOOLEAN}
   \cup {[e |-> "ret", op |-> o, r |-> r, n |-> nn, stored |-> s] : o \in Ops, r \in {"frames", "authok", "auth", "timeout", "other:ValueError"}, nn \in {0, 1}, s \in {"none", "good", "bad"}}
   \cup {[e |-> "devret", op |-> "refresh", raised |-> ra, online |-> on, frames |-> f] : ra \in BOOLEAN, on \in BOOLEAN, f \in {0, 1}}
+SmallEvs ==
+  {[e |-> "call", op |-> o, cr |-> c] : o \in Ops, c \in {"cached", "good"}}
+  \cup {[e |-> "connok", c |-> 1], [e |-> "connreq"], [e |-> "timer"]}
+  \cup {[e |-> "tx", c |-> 1, t |-> t, ctr |-> k, tok |-> "good", k |-> 1, wf |-> TRUE, reply |-> "valid"] : t \in {"HS", "DATA"}, k \in {0, 1}}
+  \cup {[e |-> "deliver", c |-> 1, m |-> mm, k |-> 1, gen |-> TRUE, live |-> TRUE, i |-> 1] : mm \in {"HSR", "ENC"}}
+  \cup {[e |-> "ret", op |-> o, r |-> r, n |-> nn, stored |-> "good"] : o \in Ops, r \in {"frames", "authok", "timeout", "proto"}, nn \in {0, 1}}
+Alphabet == IF Small THEN SmallEvs ELSE Evs
 Init == m = MonInit /\ n = 0
 Harness(x) == x[1] = "harness"
 Next == /\ n < MaxLen /\ {x \in m.bad : ~Harness(x)} = {}
-        /\ \E ev \in Evs :
+        /\ \E ev \in Alphabet :
              /\ (ev.e \in {"close", "peerclose", "tx", "deliver"} => ev.c <= Len(m.conns))          \* events about a connection need it to exist
              /\ (ev.e = "connok" => ev.c = Len(m.conns) + 1)
              /\ m' = MonStep(m, ev)
